@@ -11,7 +11,7 @@ pub struct C09;
 fn bundle_sig(s: &MSeg) -> String { format!("bundle:{},{},{},{:?},{:?},{:?},{:?}", s.root, s.manner, s.lar, s.lab, s.cor, s.dor, s.phr).replace("Some(", "").replace(')', "").replace("None", "-") }
 
 /// round trip of a structural word; returns Outcome
-fn roundtrip(w: &MWord, origin: &Value) -> Outcome {
+pub fn roundtrip(w: &MWord, origin: &Value) -> Outcome {
     let aw = w.to_asca();
     let text = match api::render_word(&aw) { Ok(Ok(t)) => t, Ok(Err(e)) => return Outcome::fail("render returned Err", json!({"origin": origin, "err": format!("{e:?}")})), Err(a) => return Outcome::fail(format!("render|{}", a.signature()), json!({"origin": origin})) };
     if text.contains('�') { return Outcome::skip("rendering contains the replacement character") }
@@ -19,7 +19,10 @@ fn roundtrip(w: &MWord, origin: &Value) -> Outcome {
         Ok(Ok(b)) => MWord::from_asca(&b),
         Ok(Err(e)) => {
             let bad = first_bad_bundle(w);
-            return Outcome::fail(bad.map(|b| bundle_sig(&b)).unwrap_or_else(|| "word does not re-parse".into()), json!({"origin": origin, "word": w.show(), "rendered": text, "reparse_error": format!("{e:?}")}))
+            // every segment reads back on its own: the concatenated text was segmented differently; a click letter after another segment is the listed cause
+            let click_after_seg = w.sylls.iter().any(|s| s.segs.windows(2).any(|p| p[1].manner & 1 != 0 && p[0] != p[1]));
+            let sig = match bad { Some(b) => bundle_sig(&b), None => if click_after_seg { "word|resegmentation around a click letter".to_string() } else { "word does not re-parse".to_string() } };
+            return Outcome::fail(sig, json!({"origin": origin, "word": w.show(), "rendered": text, "reparse_error": format!("{e:?}")}))
         }
         Err(a) => return Outcome::fail(format!("parse|{}", a.signature()), json!({"origin": origin, "rendered": text})),
     };
